@@ -346,6 +346,12 @@ class Run:
                 self.jobs.pop(op["job"]).set_result(None)
             elif kind == "jobfail":
                 self.jobs.pop(op["job"]).set_exception(ValueError("mapped coroutine failed"))
+            elif kind == "multi":
+                # several operations in ONE loop callback (no settling in between): a completion racing an emission
+                for sub in op["ops"]:
+                    err = self.do_sync(sub)
+                    if err is not None:
+                        return err
             elif kind in ("counts", "links", "advance", "settle"):
                 pass
             else:
